@@ -46,7 +46,7 @@ Print bad_fmt. Print bad_big. Print bad_stream. Print bad_send. Print bad_dur. P
 
 
 def items(defs_text, name):
-    m = re.search(r"Definition %s : [^\n]*:= \[\n(.*?)\n\]\." % name, defs_text, re.S)
+    m = re.search(r"Definition %s : [^\n]*:= \[\n(.*?)\]\.(?:\n|$)" % name, defs_text, re.S)
     if not m:
         return []
     return [l.strip().rstrip(";") for l in m.group(1).split("\n") if l.strip()]
